@@ -169,7 +169,9 @@ pub fn version_tag(version: u32) -> [u8; 4] {
     }
 }
 
-pub struct W(pub Vec<u8>);
+/// little-endian writer; `.1` = the byte ranges that are not words (string contents): a
+/// big-endian file has the same bytes there and every other 32-bit word byte-swapped
+pub struct W(pub Vec<u8>, pub Vec<(usize, usize)>);
 impl W {
     pub fn u32(&mut self, v: u32) {
         self.0.extend_from_slice(&v.to_le_bytes());
@@ -186,10 +188,12 @@ impl W {
         // length in words, NUL padded (at least one NUL like gcov's own writer)
         let words = s.len() / 4 + 1;
         self.u32(words as u32);
+        let start = self.0.len();
         self.0.extend_from_slice(s);
         for _ in s.len()..words * 4 {
             self.0.push(0);
         }
+        self.1.push((start, self.0.len()));
     }
 }
 
@@ -203,7 +207,7 @@ fn string_words(s: &[u8]) -> u32 {
 
 pub fn encode_gcno(n: &Notes) -> Vec<u8> {
     let v = n.version;
-    let mut w = W(Vec::new());
+    let mut w = W(Vec::new(), Vec::new());
     w.0.extend_from_slice(b"oncg");
     w.0.extend_from_slice(&version_tag(v));
     w.u32(n.checksum);
@@ -303,7 +307,7 @@ pub fn encode_gcno(n: &Notes) -> Vec<u8> {
 }
 
 pub fn encode_gcda(d: &Gcda, rng: &mut Rng) -> Vec<u8> {
-    let mut w = W(Vec::new());
+    let mut w = W(Vec::new(), Vec::new());
     w.0.extend_from_slice(b"adcg");
     w.0.extend_from_slice(&version_tag(d.version));
     w.u32(d.checksum);
